@@ -23,9 +23,14 @@ and the PRF are inputs:
   the PRF is modelled symbolically by *which* secret (`Secret`) each side computes with — the
   session's, or one of the public values a cache eviction can leave in a `SessionState`.
 
+* the two optional user callbacks of `Config` (`VerifyPeerCertificate`, `VerifyConnection`) are
+  further verdict inputs (`Callbacks`): not installed, or installed and returning nil / an error.
+  What they compute is user code and not modelled; WHERE they are consulted and what their
+  answer can change (nothing but add a refusal) is.
+
 What is *not* abstracted: which checks are made, in which order, under which guard, with which
-inputs, which are skipped by `InsecureSkipVerify`, which message is optional, and when
-completion is recorded.  Where the code before and after a repair differs the model takes a
+inputs, which are skipped by `InsecureSkipVerify`, which message is optional, which callback is
+consulted where, and when completion is recorded.  Where the code before and after a repair differs the model takes a
 parameter that is fed from a regenerated fact (`Params`).
 
 Core Lean only (linked into `oracle_c02`).
@@ -63,6 +68,17 @@ structure Skx (P S : Type) where
   ecdhParams : P
   sig        : S
 
+/-- The optional user callbacks of `Config` as the handshake sees them: `none` = the field is
+nil; `some b` = a callback is installed and, on this connection, returns nil (`b = true`) or an
+error (`b = false`).  A callback is arbitrary user code: its verdict is an input like the
+verdicts of X.509 and SM2, and says nothing about the peer. -/
+structure Callbacks where
+  /-- `Config.VerifyPeerCertificate(rawCerts, verifiedChains)` -/
+  vpc : Option Bool := none
+  /-- `Config.VerifyConnection(ConnectionState)` -/
+  vc  : Option Bool := none
+  deriving DecidableEq, Repr
+
 /-- everything a full handshake shows the client, after ServerHello -/
 structure FullView (K R P S : Type) where
   kex           : Kex
@@ -77,17 +93,21 @@ structure FullView (K R P S : Type) where
   helloDone     : Bool                   -- the flight ends with ServerHelloDone
   ckxOK         : Bool                   -- the public-key operation of generateClientKeyExchange succeeds
   finishedOK    : Bool
+  cb            : Callbacks := {}        -- verdicts of the user callbacks on this connection
 
 /-- shape of the source that differs before / after the repairs (fed from `Gotlcp.Facts`) -/
 structure Params where
   skxMandatory    : Bool         -- F1: `skx, ok := msg.(*serverKeyExchangeMsg); if !ok { return }`
   minCerts        : Nat          -- `len(certs) < minCerts` is refused
   verifiedIdx     : List Nat     -- indices i with an enforced `certs[i].Verify(opts)`
+  /-- callbacks `verifyServerCertificate` consults after its built-in checks, in order, each as
+  `if c.config.N != nil { if err := c.config.N(…); err != nil { alert; return err } }` -/
+  fullCallbacks   : List String
   resumeReverify  : Bool         -- F13: recorded certificates are re-verified before a session is offered
   resumeMinCerts  : Nat
   resumeIdx       : List Nat
   fullSteps       : List String  -- error-checked calls of the full branch of handshake(), in order
-  resumeSteps     : List String  -- … of the resumption branch
+  resumeSteps     : List String  -- … of the resumption branch (a callback block appears under the callback's name)
   /-- `lruSessionCache.Put`, eviction path: `setZero(old.masterSecret)` … -/
   evictWipes      : Bool
   /-- … followed by `old.masterSecret = nil` -/
@@ -119,7 +139,26 @@ def chainsOK (idx : List Nat) (certs : List (CertView K P)) : Bool :=
     | some c => c.chainOK
     | none => false
 
-/-- `Conn.verifyServerCertificate` (the two user callbacks are nil in every modelled configuration) -/
+/-- `if c.config.N != nil { if err := c.config.N(…); err != nil { alert; return err } }`: the
+only thing an installed callback can do is refuse -/
+def callback (verdict : Option Bool) (stage : String) : Step :=
+  match verdict with
+  | some false => failWith stage "bad_certificate"
+  | _ => .ok ()
+
+/-- one callback block, by the name of the `Config` field -/
+def runCallback (cb : Callbacks) (name : String) : Step :=
+  if name == "VerifyPeerCertificate" then callback cb.vpc "verify-peer-certificate"
+  else if name == "VerifyConnection" then callback cb.vc "verify-connection"
+  else .ok ()
+
+/-- the first error of a sequence of checks (the checks are pure: none consumes another's result) -/
+def firstError : List Step → Step
+  | [] => .ok ()
+  | .ok () :: rest => firstError rest
+  | .error e :: _ => .error e
+
+/-- `Conn.verifyServerCertificate`: the built-in checks, then the user callbacks -/
 def verifyServerCertificate (p : Params) (skip : Bool) (v : FullView K R P S) : Step :=
   if !v.parseOK then failWith "certificate-parse" "bad_certificate"
   else if v.certs.length < p.minCerts then failWith "certificate-count" "bad_certificate"
@@ -128,7 +167,7 @@ def verifyServerCertificate (p : Params) (skip : Bool) (v : FullView K R P S) : 
     | none => failWith "certificate-count" "panic"
     | some c0 =>
       if c0.kind == .other then failWith "certificate-keytype" "unsupported_certificate"
-      else .ok ()
+      else firstError (p.fullCallbacks.map (runCallback v.cb))
 
 /-- the to-be-signed value the client assembles -/
 def clientTbs (v : FullView K R P S) (skx : Skx P S) (encDer : P) : Tbs R P :=
@@ -168,12 +207,6 @@ def generateClientKeyExchange (v : FullView K R P S) : Step :=
       else .ok ()
   | _ => failWith "ckx-certs" "internal_error"
 
-/-- the first error of a sequence of checks (the checks are pure: none consumes another's result) -/
-def firstError : List Step → Step
-  | [] => .ok ()
-  | .ok () :: rest => firstError rest
-  | .error e :: _ => .error e
-
 def check (bad : Bool) (stage alert : String) : Step :=
   if bad then failWith stage alert else .ok ()
 
@@ -197,14 +230,14 @@ def doFullHandshake (p : Params) (verify : K → Tbs R P → S → Bool) (skip :
 
 /-- one error-checked call of `handshake()`; calls the model does not interpret cannot fail
 through anything the peer controls (key derivation, local writes, cache insertion) -/
-def runStep (doFull : Step) (finishedOK : Bool) (name : String) : Step :=
+def runStep (doFull : Step) (finishedOK : Bool) (cb : Callbacks) (name : String) : Step :=
   if name == "doFullHandshake" then doFull
   else if name == "readFinished" then
     (if finishedOK then .ok () else failWith "finished" "handshake_failure")
-  else .ok ()
+  else runCallback cb name   -- a callback block of handshake() itself; any other call: `.ok ()`
 
-def runSteps (doFull : Step) (finishedOK : Bool) (steps : List String) : Step :=
-  firstError (steps.map (runStep doFull finishedOK))
+def runSteps (doFull : Step) (finishedOK : Bool) (cb : Callbacks) (steps : List String) : Step :=
+  firstError (steps.map (runStep doFull finishedOK cb))
 
 /-- state of the connection when `handshake()` returns -/
 structure Result where
@@ -220,7 +253,7 @@ def finish (r : Step) : Result :=
 
 /-- `handshake()` when the server did not resume -/
 def fullHandshake (p : Params) (verify : K → Tbs R P → S → Bool) (skip : Bool) (v : FullView K R P S) : Result :=
-  finish (runSteps (doFullHandshake p verify skip v) v.finishedOK p.fullSteps)
+  finish (runSteps (doFullHandshake p verify skip v) v.finishedOK v.cb p.fullSteps)
 
 /-! ### resumption -/
 
@@ -259,6 +292,8 @@ structure SessView where
   /-- the secret the peer's ChangeCipherSpec / Finished were computed with (`none`: the peer
   sent no Finished, or a damaged one) -/
   peerFin    : Option Secret
+  /-- verdicts of the user callbacks on this (resumed) connection -/
+  cb         : Callbacks := {}
   deriving DecidableEq, Repr
 
 def sessChains (idx : List Nat) (s : SessView) : Bool :=
@@ -296,7 +331,7 @@ def resumeFinishedOK (p : Params) (s : SessView) : Bool :=
 
 /-- `handshake()` on the resumption branch -/
 def resumedHandshake (p : Params) (s : SessView) : Result :=
-  finish (firstError [processResumed p s, runSteps (.ok ()) (resumeFinishedOK p s) p.resumeSteps])
+  finish (firstError [processResumed p s, runSteps (.ok ()) (resumeFinishedOK p s) s.cb p.resumeSteps])
 
 /-- one client connection: an optional cached session and the full-handshake view used when
 the session is not offered or the server does not resume it -/
